@@ -291,7 +291,7 @@ def stepD (cfg : Cfg) (r : Recip) (d : Dgram) : Recip × Verdict :=
 /-! ### Which key and nonce a message is protected with
 
 `coap_oscore_new_pdu_encrypted_lkd` (requests, responses, notifications) together with the association bookkeeping of
-`coap_oscore_decrypt_pdu` (request path), transcribed from the tree after the fixes ae365ed (a response to an Observe
+`coap_oscore_decrypt_pdu` (request path), transcribed from the tree after the fixes 155f0b4 (a response to an Observe
 request always uses the Sender Sequence Number) and the one that sets the association up only after the request has
 been verified.  The key is always the Sender Key; the nonce is a function of (id, Partial IV): the endpoint's own
 Sender ID with its sequence number (`Nonce.own`), or the peer's id with the Partial IV of the request
